@@ -17,7 +17,7 @@
 (***************************************************************************)
 EXTENDS Naturals, Sequences, FiniteSets, TLC, Json
 
-CONSTANTS MaxOps, KeySet, Rand
+CONSTANTS MaxOps, KeySet, Rand, Pairs    \* Pairs: two payloads that spell the SAME field (the second meets a non-default previous value)
 
 BoolFields == {"features.hover", "features.completion", "features.formatting", "features.diagnostics",
                "features.semanticTokens", "features.codeActions", "features.foldingRanges", "features.documentLinks",
@@ -46,11 +46,13 @@ Default == [f \in Fields |->
       [] OTHER                               -> TRUE]
 
 (* value classes: the JSON text is what the replay embeds in the payload *)
-Classes == {"posint", "zero", "neg", "floatint", "decstr", "junk", "true", "false", "strTRUE", "strfalse", "null", "array", "object", "emptystr"}
+Classes == {"posint", "zero", "neg", "floatint", "decstr", "junk", "true", "false", "strTRUE", "strfalse", "null", "array", "object", "emptystr",
+            "str1", "str0", "strt", "negfloat"}      \* strings that other languages read as booleans; a numeric string / a float that is not positive
 JsonOf(c) == CASE c = "posint" -> "7" [] c = "zero" -> "0" [] c = "neg" -> "-3" [] c = "floatint" -> "12.0"
                [] c = "decstr" -> "\"9\"" [] c = "junk" -> "\"abc\"" [] c = "true" -> "true" [] c = "false" -> "false"
                [] c = "strTRUE" -> "\"TRUE\"" [] c = "strfalse" -> "\" false \"" [] c = "null" -> "null"
-               [] c = "array" -> "[1]" [] c = "object" -> "{\"a\":1}" [] OTHER -> "\"\""
+               [] c = "array" -> "[1]" [] c = "object" -> "{\"a\":1}"
+               [] c = "str1" -> "\"1\"" [] c = "str0" -> "\"0\"" [] c = "strt" -> "\"t\"" [] c = "negfloat" -> "-2.0" [] OTHER -> "\"\""
 
 (* the value a field takes when key k carries class c; `old` when the entry must be ignored *)
 Effect(f, c, old) ==
@@ -62,13 +64,17 @@ Effect(f, c, old) ==
         CASE c = "posint"          -> 7
           [] c = "floatint"        -> 12
           [] c = "decstr"          -> 9
-          [] c \in {"zero", "neg"} -> Default[f]
+          [] c = "str1"            -> 1
+          [] c \in {"zero", "neg", "str0", "negfloat"} -> Default[f]
           [] OTHER                 -> old
     ELSE \* cli.path
         CASE c = "junk"     -> "abc"
           [] c = "decstr"   -> "9"
           [] c = "strTRUE"  -> "TRUE"
           [] c = "strfalse" -> " false "
+          [] c = "str1"     -> "1"
+          [] c = "str0"     -> "0"
+          [] c = "strt"     -> "t"
           [] c = "emptystr" -> Default[f]
           [] OTHER          -> old
 
@@ -112,9 +118,18 @@ RandPayload(k) ==
     IF RandomElement(1..8) = 1 THEN [shape |-> RandomElement(Shapes \ {"object"}), wrapper |-> FALSE, entries |-> <<>>]
     ELSE [shape |-> "object", wrapper |-> RandomElement(BOOLEAN), entries |-> [i \in 1..n |-> RandEntry(i + k)]]
 
+(* value classes that move a field away from its default (the first payload of a pair) *)
+SetClasses == {"posint", "decstr", "false", "strfalse", "junk", "true"}
+
 VARIABLE drawn
 Next == IF Rand THEN /\ drawn' = RandPayload(Len(h))
                      /\ Step(drawn')
+        ELSE IF Pairs THEN
+             /\ drawn' = drawn
+             /\ \E p \in { q \in Payload1 : q.shape = "object" /\ ~q.wrapper } :
+                   /\ Len(h) = 0 => p.entries[1].cls \in SetClasses
+                   /\ Len(h) = 1 => FieldOf(p.entries[1].key) = FieldOf(h[1].payload.entries[1].key)
+                   /\ Step(p)
         ELSE /\ drawn' = drawn
              /\ \E p \in Payload1 : Step(p)
 
